@@ -714,3 +714,29 @@ Example wf_file_metadata_example :
   let fm := [MInt 2; MArr (repeat se 16); MInt 5; MArr [rg]; MArr [kv]; MBytes (Some [99])] in
   wf_file_metadata fm /\ norm_file_metadata fm = fm.
 Proof. split; [apply wfb_sound; vm_compute; reflexivity | vm_compute; reflexivity]. Qed.
+
+(* ------------------------------------------------------------------------------------------ *)
+(** * Framed variants: the encoding is followed by other bytes (a page header followed by the page body) *)
+
+Theorem parse_accepts_framed : forall tbl fuel sid fs bs tail,
+  Encodes bs (VStruct fs) -> typed tbl fuel sid 0 fs ->
+  parse_message tbl fuel sid (bs ++ tail) = Ok (interp tbl fuel sid fs (s_init (tbl sid)), N.of_nat (length bs)).
+Proof.
+  intros tbl fuel sid fs bs tail HE TY. unfold parse_message, Encodes in *. apply enc_struct_inv in HE.
+  destruct (parse_struct_spec tbl fuel sid fs bs (s_init (tbl sid)) (decoder_init (bs ++ tail)) tail 0 []) as (d' & PS & Hat).
+  - exact HE.
+  - exact TY.
+  - unfold at_, decoder_init. simpl. auto.
+  - rewrite PS. cbn [rbind]. destruct Hat as (_ & P & _). rewrite P. reflexivity.
+Qed.
+
+Theorem page_header_roundtrip_framed : forall m tail, wf_page_header m ->
+  exists bs, write_page_header m = Ok bs /\
+             parse_page_header (bs ++ tail) = Ok (norm_page_header m, N.of_nat (length bs)).
+Proof.
+  intros m tail WF. destruct fuel_ok as [F1 F2].
+  destruct (write_message_spec carquet_tbl carquet_ids_ok FUEL S_PAGE_HEADER m WF F1) as (bs & W & HE).
+  exists bs. split; [exact W|]. unfold parse_page_header, norm_page_header, norm.
+  apply parse_accepts_framed; [exact HE|].
+  apply (fields_of_typed carquet_tbl carquet_ids_ok carquet_ids_nodup) || apply (fields_of_typed carquet_tbl carquet_ids_nodup); [exact WF | lia].
+Qed.
